@@ -81,7 +81,8 @@ impl PieceSolver {
         let mut is_rejected = false;
         for file in piece.files.iter() {
             if file.metadata.is_padding_file { continue; }
-            if file.metadata.searches.is_none() {
+            // An empty file contributes no bytes to the piece, so it does not need a candidate on disk.
+            if file.metadata.searches.is_none() && file.read_length > 0 {
                 is_rejected = true;
                 break;
             }
